@@ -116,7 +116,7 @@ def run(ctx):
     res2 = vlib.Results()
     deadline = ctx["deadline"] or (600 if tier == "quick" else 3000)
     nsh2 = 96
-    args2 = [["--levels", "L1,L4,L5" if tier == "quick" else "L1,L2,L4,L5", "--tier", tier, "--targets", "sse,avx,mmx", "--classes", "int",
+    args2 = [["--levels", "L1,L4,L5,L6" if tier == "quick" else "L1,L2,L4,L5,L6", "--tier", tier, "--targets", "sse,avx,mmx", "--classes", "int",
               "--corpus", corpus_arg(), "--prop", "C11", "--featsets", 1, "--lite", 1, "--shard", i, "--nshards", nsh2,
               "--deadline", int(deadline)] for i in range(nsh2)]
     vlib.run_shards(xprog, args2, env, timeout=deadline * 1.5 + 300, res=res2, label="xprog")
